@@ -102,12 +102,19 @@ def _m(p, n, b):
     return True
 
 
+class Bindings(dict):
+    """Metavariable bindings of a successful match (truthy even when empty)."""
+
+    def __bool__(self):
+        return True
+
+
 def match(pattern, node):
     """Return the bindings if `node` matches `pattern`, else None."""
     p = _parse(pattern) if isinstance(pattern, str) else pattern
     if isinstance(node, ast.Expr) and not isinstance(p, ast.stmt):
         node = node.value
-    b = {}
+    b = Bindings()
     return b if _m(p, node, b) else None
 
 
@@ -122,7 +129,7 @@ def find(pattern, root):
                 isinstance(p, ast.Name) and _is_meta(p.id) and isinstance(node, ast.expr)
             ):
                 continue
-            b = {}
+            b = Bindings()
             if _m(p, node, b):
                 out.append((node, b))
     out.sort(key=lambda t: (getattr(t[0], "lineno", 0), getattr(t[0], "col_offset", 0)))
